@@ -169,7 +169,7 @@ func (e *Engine) execFunc(fn *ssa.Function, args []Val, binds []Val, st *State, 
 		f.top = true
 		f.frameRule = e.topFrameRule
 	}
-	if fn.Recover != nil {
+	if fn.Recover != nil && !onlyMutexDefers(fn) {
 		panic(reject("function with recover"))
 	}
 	f.loops, f.back = findLoops(fn)
@@ -464,11 +464,24 @@ func (e *Engine) execInstr(f *frame, b *ssa.BasicBlock, in ssa.Instruction, st *
 		}
 		panic(reject("go statement"))
 	case *ssa.Select:
+		if e.AbstractConc {
+			if v, ok := e.execSelect(f, st, x, pos); ok {
+				f.vals[x] = v
+				return
+			}
+		}
 		panic(reject("select"))
 	case *ssa.Send:
+		if e.AbstractConc && e.execSend(f, st, x, pos) {
+			return
+		}
 		panic(reject("channel send"))
 	case *ssa.MakeChan:
 		if e.AbstractConc {
+			if v, ok := e.makeChan(st, x, f.get(x.Size)); ok {
+				f.vals[x] = v
+				return
+			}
 			ref := e.newRef(st)
 			f.vals[x] = Val{Typ: x.Type(), Terms: []*smt.Term{ref}}
 			return
@@ -874,3 +887,16 @@ func onlyLoadStore(v ssa.Value, depth int) bool {
 
 // topEntry is the entry state of the function under verification.
 func (f *frame) topEntry() *State { return topFrame(f).entry }
+
+// onlyMutexDefers: every defer of fn is a sync.Mutex/RWMutex unlock (a no-op under sequential semantics), so the
+// recover block go/ssa adds for deferring functions is unreachable in the model.
+func onlyMutexDefers(fn *ssa.Function) bool {
+	for _, b := range fn.Blocks {
+		for _, in := range b.Instrs {
+			if d, ok := in.(*ssa.Defer); ok && !isMutexCall(&d.Call) {
+				return false
+			}
+		}
+	}
+	return true
+}
